@@ -85,7 +85,7 @@ package refopts
 //@   ensures !cs0 && refGrouper.ignoredRefGroup != nil ==> len(result1) == len(cs1) + 1 && result1[len(result1)-1] == refGrouper.ignoredRefGroup.Symbol
 //@   ensures cs0 || refGrouper.ignoredRefGroup == nil ==> same(result1, cs1)
 
-//@ property C07: (*refGroup).collectSymbols (*refGrouper).Categorize
+//@ property C07: (*refGroup).collectSymbols (*refGrouper).Categorize NewShowRefGrouper (showRefGrouper).Categorize
 
 // Given contracts so that mainImplementation is checked against them instead
 // of inlining their bodies (their own verification is listed where claimed).
@@ -97,9 +97,17 @@ package refopts
 //@   ensures result1 != nil ==> result0 == nil
 //@   ensures result1 == nil ==> result0 != nil && fresh(result0) && has(result0.groups, "") && result0.topLevelGroup == result0.groups[""] && result0.topLevelGroup != nil
 //@   ensures result1 == nil ==> forall s sizes.RefGroupSymbol :: has(result0.groups, s) ==> result0.groups[s] != nil && keyof(result0.groups[s].Symbol) == keyof(s)
-//@ assumed func NewShowRefGrouper
-//@   trust A-CALLEE-UNVERIFIED
+// --show-refs: the wrapper returns exactly what the wrapped grouper decides
+// and writes its log lines to the writer it was given and nowhere else.
+//@ func NewShowRefGrouper
 //@   pure
+//@   ensures dyntype(result, "refopts.showRefGrouper") && unbox(result, "refopts.showRefGrouper").RefGrouper == rg && unbox(result, "refopts.showRefGrouper").w == w
+//@ func (showRefGrouper).Categorize
+//@   pure
+//@   call 0 Categorize as inner
+//@   call 0 Fprintf assert arg_0 == rg.w
+//@   call 1 Fprintf assert arg_0 == rg.w
+//@   ensures result0 == inner0 && same(result1, inner1)
 
 // ---------------------------------------------------------------- ref_group_builder.go (C06, C07, C15)
 
@@ -124,12 +132,24 @@ package refopts
 // (no ROOT given) or None (only ROOTs); an explicit filter is kept (C06).
 //@ func (*refGrouper).fillInTree
 //@   modifies fieldmem(sizes.RefGroup.Name), fieldmem(refGroup.otherRefGroup), refGrouper.refGroups
+//@   let g0 = rg
+//@   loop 0 invariant rangeindex == -1 ==> g0.otherRefGroup == old(g0.otherRefGroup)
+//@   loop 0 invariant forall g *refGroup :: old(len(g.Name)) > 0 ==> same(g.Name, old(g.Name))
+//@   ensures result == nil ==> rg.filter != nil || len(rg.subgroups) != 0
+//@   ensures result == nil && len(rg.subgroups) != 0 ==> rg.otherRefGroup != nil && rg.otherRefGroup.Name == "Other"
+//@   ensures result == nil && len(rg.subgroups) != 0 && len(rg.Symbol) == 0 ==> rg.otherRefGroup.Symbol == "other"
+//@   ensures result == nil && len(rg.subgroups) != 0 && len(rg.Symbol) != 0 ==> keyof(rg.otherRefGroup.Symbol) == catkeys(rg.Symbol, ".other")
+//@   ensures len(rg.subgroups) == 0 ==> rg.otherRefGroup == old(rg.otherRefGroup)
+//@   ensures forall g *refGroup :: old(len(g.Name)) > 0 ==> same(g.Name, old(g.Name))
 
 //@ func (*RefGroupBuilder).Finish
 //@   modifies rgb.topLevelGroup.filter, fieldmem(sizes.RefGroup.Name), fieldmem(refGroup.otherRefGroup)
 //@   ensures old(rgb.topLevelGroup.filter) == nil && defaultAll ==> forall r string :: apply(rgb.topLevelGroup.filter, r)
 //@   ensures old(rgb.topLevelGroup.filter) == nil && !defaultAll ==> forall r string :: !apply(rgb.topLevelGroup.filter, r)
 //@   ensures old(rgb.topLevelGroup.filter) != nil ==> rgb.topLevelGroup.filter == old(rgb.topLevelGroup.filter)
+//@   ensures result1 != nil ==> result0 == nil
+//@   ensures result1 == nil ==> dyntype(result0, "*refopts.refGrouper") && unbox(result0, "*refopts.refGrouper").topLevelGroup == rgb.topLevelGroup
+//@   ensures result1 == nil ==> unbox(result0, "*refopts.refGrouper").ignoredRefGroup != nil && unbox(result0, "*refopts.refGrouper").ignoredRefGroup.Symbol == "ignored" && unbox(result0, "*refopts.refGrouper").ignoredRefGroup.Name == "Ignored"
 
 // The option table of C06: --branches / --tags / --remotes / --notes are
 // prefix rules refs/heads, refs/tags, refs/remotes, refs/notes; --stash is the
